@@ -46,8 +46,9 @@ Definition enc_parser (p : pline) (h : N) : N :=
   let sc := match k with Some c => subcode_of c | None => None end in
   let ln := match k with Some c => lineno_of c | None => None end in
   let v := match validate p with None => 0 | Some VNoChecksum => 1 | Some VNoLine => 2 | Some VMismatch => 3 end%N in
-  mix (enc_string (full_text p) (enc_string (command_string p) (enc_string (text_of p)
-    (enc_oN ln (enc_oN sc (enc_ostring gc h)))))) v.
+  mix (enc_string (stringify p true true (Some true) false false) (enc_string (stringify p true true None true true)
+    (enc_string (full_text p) (enc_string (command_string p) (enc_string (text_of p)
+      (enc_oN ln (enc_oN sc (enc_ostring gc h)))))))) v.
 
 Definition enc_case (s : string) (h : N) : N :=
   let '(p, rest) := parse_line s in
